@@ -91,6 +91,47 @@ async fn prog_udp_client(name: String, l: Log, v6: bool, p: Value) -> turmoil::R
     Ok(())
 }
 
+/// Multicast: members join a group and log what they receive (arrival instants and order);
+/// a sender fans out to the group (one world-rng draw per member, in membership order).
+async fn prog_mc_member(name: String, l: Log, v6: bool, p: Value) -> turmoil::Result {
+    let sock = UdpSocket::bind((wildcard(v6), 9200)).await?;
+    if v6 {
+        sock.join_multicast_v6(&"ff08::1".parse().unwrap(), 0)?;
+    } else {
+        sock.join_multicast_v4("239.1.2.3".parse().unwrap(), Ipv4Addr::UNSPECIFIED)?;
+    }
+    let leave_after = p["leave_after"].as_u64().unwrap_or(1000);
+    let mut buf = [0u8; 32];
+    let mut n = 0;
+    loop {
+        let (len, from) = sock.recv_from(&mut buf).await?;
+        n += 1;
+        log(&l, &name, format!("mc got {:?} from {}", &buf[..len], from));
+        if n == leave_after {
+            if v6 {
+                let _ = sock.leave_multicast_v6(&"ff08::1".parse().unwrap(), 0);
+            } else {
+                let _ = sock.leave_multicast_v4("239.1.2.3".parse().unwrap(), Ipv4Addr::UNSPECIFIED);
+            }
+            log(&l, &name, "mc left".to_string());
+        }
+    }
+}
+
+async fn prog_mc_sender(name: String, l: Log, v6: bool, p: Value) -> turmoil::Result {
+    let sock = UdpSocket::bind((wildcard(v6), 9201)).await?;
+    let mut rng = Lcg(p["salt"].as_u64().unwrap_or(1));
+    tokio::time::sleep(Duration::from_millis(2)).await;
+    for i in 0..p["n"].as_u64().unwrap_or(5) {
+        let dst: std::net::SocketAddr = if v6 { "[ff08::1]:9200".parse().unwrap() } else { "239.1.2.3:9200".parse().unwrap() };
+        let r = sock.send_to(&[i as u8, (rng.next() % 200) as u8], dst).await;
+        log(&l, &name, format!("mc send {} -> {:?}", i, r.map_err(|e| e.kind())));
+        tokio::time::sleep(Duration::from_micros(700 + rng.next() % 4000)).await;
+    }
+    futures_util::future::pending::<()>().await;
+    Ok(())
+}
+
 async fn prog_tcp_server(name: String, l: Log, v6: bool) -> turmoil::Result {
     let lis = TcpListener::bind((wildcard(v6), 9100)).await?;
     let mut k = 0u32;
@@ -424,6 +465,8 @@ fn one_run(case: &Value, wall_sleep_us: u64) -> (Vec<String>, String) {
                     "tcp_client" => prog_tcp_client(name, l, p).await,
                     "spawner" => prog_spawner(name, l, p).await,
                     "racer" => prog_racer(name, l, p).await,
+                    "mc_member" => prog_mc_member(name, l, v6, p).await,
+                    "mc_sender" => prog_mc_sender(name, l, v6, p).await,
                     "fs" => prog_fs(name, l, p).await,
                     "uring" => prog_uring(name, l, p).await,
                     _ => panic!("unknown kind"),
@@ -442,6 +485,24 @@ fn one_run(case: &Value, wall_sleep_us: u64) -> (Vec<String>, String) {
         if let Some(acts) = case["ctl"].get(k.to_string()).and_then(|a| a.as_array()) {
             for a in acts {
                 let name = a[0].as_str().unwrap();
+                if name.ends_with("_re") {
+                    // host sets given by regex: resolution order is observable (order of crashes,
+                    // of link calls, of lookup_many)
+                    let re = regex::Regex::new(a[1].as_str().unwrap()).unwrap();
+                    let re2 = a.get(2).and_then(|v| v.as_str()).map(|s| regex::Regex::new(s).unwrap());
+                    plog.borrow_mut().push(format!("lookup_many {:?} -> {:?}", a[1], sim.lookup_many(re.clone())));
+                    match (name, re2) {
+                        ("crash_re", _) => sim.crash(re),
+                        ("bounce_re", _) => sim.bounce(re),
+                        ("partition_re", Some(r2)) => sim.partition(re, r2),
+                        ("repair_re", Some(r2)) => sim.repair(re, r2),
+                        ("hold_re", Some(r2)) => sim.hold(re, r2),
+                        ("release_re", Some(r2)) => sim.release(re, r2),
+                        _ => panic!("bad regex ctl action"),
+                    }
+                    plog.borrow_mut().push(format!("ctl step {} {}", k, a));
+                    continue;
+                }
                 let x = format!("n{}", a[1].as_u64().unwrap());
                 let y = a.get(2).and_then(|v| v.as_u64()).map(|v| format!("n{v}"));
                 match (name, y) {
